@@ -300,9 +300,9 @@ class throttle_with_mapper:
             return
         s.has = True
         s.val = x
-        if s.gen > 0:
-            out.dispose_previous()  # the throttle of the previous element is released
         s.gen += 1
+        if s.gen > 1:
+            out.dispose_previous()  # the throttle of the previous element is released (the new element is already the pending one)
         out.subscribe(d)
 
     def fire(s, out, k):
